@@ -1,6 +1,7 @@
 package c19
 
 import (
+	"sort"
 	"fmt"
 	"math/rand"
 	"strings"
@@ -330,6 +331,18 @@ func checkTuple(c *ctx, r *rand.Rand, t tuple) {
 	}
 	o.Count("components_compared", int64(6+len(t.Digis)+len(t.Params)))
 	o.Sig("tuple %s", t.shape())
+	// a parsed URL stays what it is: the last few results are looked at again after later strings were
+	// parsed (results must not share mutable state - slices, maps, userinfo - with later calls)
+	for _, k := range c.keptURLs {
+		o.Count("earlier_urls_rechecked", 1)
+		if now := renderURL(k.u); now != k.was {
+			c.violate("tuple:earlier-result-changed", "the URL parsed from %q changed after later strings were parsed: was %s, is %s", k.raw, k.was, now)
+		}
+	}
+	if len(c.keptURLs) >= 6 {
+		c.keptURLs = c.keptURLs[1:]
+	}
+	c.keptURLs = append(c.keptURLs, keptURL{u, raw, renderURL(u)})
 
 	// refusal rules on the same tuple
 	for _, short := range []string{"", t.Target[:1], t.Target[:2]} {
@@ -355,6 +368,31 @@ func checkTuple(c *ctx, r *rand.Rand, t tuple) {
 		}
 		o.Count("digi_refusals_checked", 1)
 	}
+}
+
+type keptURL struct {
+	u   *transport.URL
+	raw string
+	was string
+}
+
+// renderURL prints every component of a parsed URL (for comparing a value with its earlier self).
+func renderURL(u *transport.URL) string {
+	user := "<nil>"
+	if u.User != nil {
+		pw, has := u.User.Password()
+		user = fmt.Sprintf("%q/%q/%v", u.User.Username(), pw, has)
+	}
+	keys := make([]string, 0, len(u.Params))
+	for k := range u.Params {
+		keys = append(keys, k)
+	}
+	sort.Strings(keys)
+	ps := ""
+	for _, k := range keys {
+		ps += fmt.Sprintf("%q=%q;", k, u.Params[k])
+	}
+	return fmt.Sprintf("scheme=%q host=%q user=%s target=%q digis=%q params=%s", u.Scheme, u.Host, user, u.Target, u.Digis, ps)
 }
 
 func runTuples(c *ctx, r *rand.Rand, n int) {
